@@ -1414,6 +1414,16 @@ int32 matrixResumeSession(ssl_t *ssl)
         return PS_FAILURE;
     }
 
+    /* The suite of the cached session must still be usable by this session:
+       sslGetCipherSpec knows what has been disabled since, globally or for
+       this session (matrixSslSetCipherSuiteEnabledStatus).  If it is not,
+       do a full handshake. */
+    if (sslGetCipherSpec(ssl, g_sessionTable[i].cipher->ident) == NULL)
+    {
+        psUnlockMutex(&g_sessionTableLock);
+        return PS_FAILURE;
+    }
+
     /* Looks good */
     Memcpy(ssl->sec.masterSecret, g_sessionTable[i].masterSecret,
         SSL_HS_MASTER_SIZE);
